@@ -18,14 +18,14 @@ import (
 )
 
 type taintAnalysis struct {
-	c       *Ctx
-	g       *CallGraph
-	rev     map[*ssa.Function][]cgIn
-	stores  map[string][]ssa.Value // struct field key → stored values
-	gstores map[*ssa.Global][]ssa.Value
+	c        *Ctx
+	g        *CallGraph
+	rev      map[*ssa.Function][]cgIn
+	stores   map[string][]ssa.Value // struct field key → stored values
+	gstores  map[*ssa.Global][]ssa.Value
 	closures map[*ssa.Function][]*ssa.MakeClosure
-	lexSafe map[string]string // parser field key → "safe"/"risky:<why>"
-	budget  int
+	lexSafe  map[string]string // parser field key → "safe"/"risky:<why>"
+	budget   int
 }
 
 type originSet map[string]bool
@@ -35,6 +35,7 @@ func (o originSet) add(s string) { o[s] = true }
 // provenance of the first discovery of each leaf (diagnostic only)
 var taintStack []string
 var taintWhy = map[string]string{}
+
 func noteWhy(leaf string) {
 	if _, ok := taintWhy[leaf]; !ok {
 		st := taintStack
